@@ -31,7 +31,7 @@ func init() { All["C12"] = Spec{"exploration", runC12} }
 type respSpec struct {
 	mixed   []respSpec // when set: one spec per item (hc/ic taken from the outer spec)
 	hc, ic  int        // header batch count, number of items
-	op      int        // 0 same, 1 another implemented, 2 unregistered, 3 absent
+	op      int        // 0 same, 1 another implemented, 2 unregistered, 3 absent, 4 the first code after the implemented ones (0x2C), 5 a vendor code
 	status  uint32
 	reason  int // 0 absent, 1 ItemNotFound, 2 GeneralFailure, 3 PermissionDenied, 4 unnamed
 	payload int // 0 absent, 1 right type, 2 another operation's type, 3 opaque
@@ -47,7 +47,7 @@ func (r respSpec) String() string {
 		return fmt.Sprintf("header-count=%d ", r.hc) + strings.Join(parts, " ")
 	}
 	return fmt.Sprintf("header-count=%d items=%d op=%s status=%d reason=%s payload=%s message=%q", r.hc, r.ic,
-		[]string{"same", "another", "unregistered", "absent"}[r.op], r.status, []string{"absent", "ItemNotFound", "GeneralFailure", "PermissionDenied", "unnamed"}[r.reason],
+		[]string{"same", "another", "unregistered", "absent", "first-after-implemented", "vendor-code"}[r.op], r.status, []string{"absent", "ItemNotFound", "GeneralFailure", "PermissionDenied", "unnamed"}[r.reason],
 		[]string{"absent", "right-type", "other-operation-type", "opaque"}[r.payload], r.message)
 }
 
@@ -57,7 +57,7 @@ func allRespSpecs() []respSpec {
 	var out []respSpec
 	for hc := 0; hc <= 2; hc++ {
 		for ic := 0; ic <= 2; ic++ {
-			for op := 0; op < 4; op++ {
+			for op := 0; op < 6; op++ {
 				for _, st := range []uint32{0, 1, 2, 3, 7} {
 					for rs := 0; rs < 5; rs++ {
 						for pl := 0; pl < 4; pl++ {
@@ -113,6 +113,10 @@ func craft(r respSpec, reqOps []kmip.Operation) []byte {
 			wireOp = other
 		case 2:
 			wireOp = kmip.Operation(0x99)
+		case 4:
+			wireOp = kmip.Operation(0x2C)
+		case 5:
+			wireOp = kmip.Operation(0x80000001)
 		}
 		if r.op != 3 {
 			kids = append(kids, nEnum(tg("Operation"), uint32(wireOp)))
